@@ -104,7 +104,8 @@ Definition spec_values (s e : N) (vals : list value) : list (option N) :=
 
 Definition c03_oracle (c out : sexp) : sexp :=
   let status := getZ (nthS 0 out) in
-  if negb (Z.eqb status 0) then sB true   (* refused input: not a file "produced as in C01" *)
+  if Z.eqb status 1 then sB true          (* refused input: not a file "produced as in C01" *)
+  else if negb (Z.eqb status 0) then sB false   (* a panic or a hang while writing or answering *)
   else
     let sizes := get_sizes (nthS 2 c) in
     let inp := input_of c in
